@@ -65,7 +65,8 @@ Tm(S, c) == [sup |-> S, c |-> c]
 Coefs == << <<R(1), R(-1)>>, <<R(2), <<1, 2>>>>, <<R(3), R(2)>> >>
 OperatorsPairs == { <<Tm(S, Coefs[k][1]), Tm(T, Coefs[k][2])>> : S \in SUBSET Qubits, T \in SUBSET Qubits, k \in 1..3 }
 OperatorsSmall == { <<Tm(S, Coefs[k][1]), Tm(T, Coefs[k][2])>> : S \in {{}, {0}, {W - 1}, Qubits}, T \in {{0}, {0, W - 1}, {}}, k \in 1..2 }
-                  \cup { <<Tm({0}, R(2)), Tm({W - 1}, R(-1)), Tm({0, W - 1}, <<1, 2>>)>> }
+                  \cup { <<Tm({0}, R(2)), Tm({W - 1}, R(-1)), Tm({0, W - 1}, <<1, 2>>)>>,
+                         <<Tm({0}, <<1, 8000>>), Tm({W - 1}, <<-1, 8000>>), Tm({0}, <<1, 8000>>)>> }    \* small coefficients: statistics of order 1e-9 are still exact
 
 SupSeq(S) == LET RECURSIVE L(_) L(T) == IF T = {} THEN <<>> ELSE LET a == CHOOSE x \in T : \A y \in T : x <= y IN <<a>> \o L(T \ {a}) IN L(S)
 SeenSeq == LET RECURSIVE L(_) L(T) == IF T = {} THEN <<>> ELSE LET a == CHOOSE x \in T : TRUE IN <<a>> \o L(T \ {a}) IN L(Seen)
